@@ -161,6 +161,7 @@ func (p *provider) CreateScope(ctx context.Context) (Scope, error) {
 	if ctx == nil {
 		ctx = context.Background()
 	}
+	verifPoint("provider.CreateScope.checked")
 
 	// Create scope with cancellable context
 	ctx, cancel := context.WithCancel(ctx)
@@ -168,6 +169,7 @@ func (p *provider) CreateScope(ctx context.Context) (Scope, error) {
 	if err != nil {
 		return nil, err
 	}
+	verifPoint("provider.CreateScope.built")
 
 	// Track scope. The table is nil once the provider has been closed: a
 	// creation that overlaps the Close reports the disposed error.
@@ -179,6 +181,7 @@ func (p *provider) CreateScope(ctx context.Context) (Scope, error) {
 	}
 	p.scopes[s] = struct{}{}
 	p.scopesMu.Unlock()
+	verifPoint("provider.CreateScope.registered")
 
 	// Auto-close on context cancellation
 	go func() {
@@ -209,6 +212,7 @@ func (p *provider) Close() error {
 	}
 
 	var errors []error
+	verifPoint("provider.Close.won")
 
 	// Close all scopes
 	p.scopesMu.Lock()
@@ -218,6 +222,7 @@ func (p *provider) Close() error {
 	}
 	p.scopes = nil
 	p.scopesMu.Unlock()
+	verifPoint("provider.Close.listed")
 
 	for _, s := range scopes {
 		if s != nil {
@@ -226,6 +231,8 @@ func (p *provider) Close() error {
 			}
 		}
 	}
+
+	verifPoint("provider.Close.scopes")
 
 	// Close root scope
 	if p.rootScope != nil {
@@ -236,6 +243,8 @@ func (p *provider) Close() error {
 		// rootScope is kept: calls that overlap Close read it without
 		// synchronisation and get the disposed error from the closed scope
 	}
+
+	verifPoint("provider.Close.root")
 
 	// Dispose all singleton disposables
 	p.disposablesMu.Lock()
@@ -251,6 +260,8 @@ func (p *provider) Close() error {
 			}
 		}
 	}
+
+	verifPoint("provider.Close.singletons")
 
 	// Clear all internal state - clear singletons from sync.Map
 	p.singletonKeysMu.Lock()
